@@ -10,7 +10,9 @@ Strings: the Rust getters return `String`s decoded from the document encoding an
 which are encoded into it. The model works on the encoded bytes; lane `attrs` runs the real rewriter
 with the single-byte encoding windows-1252, for which decoding/encoding is a bijection on all 256
 bytes, so nothing is lost. (A query with a character the encoding cannot represent is rejected by
-`name_from_string` → `None`/`false`; such queries have no byte representation and are not modelled.)
+`lookup_name` → `None`/`false`; such queries have no byte representation and are not modelled.)
+The accessors decode with `decode_without_bom_handling` (base/bytes.rs `as_string`), so the bytes ARE
+what the handler reads, also when they begin with a byte-order mark.
 -/
 namespace LolHtml.Model.AttrsApi
 open LolHtml LolHtml.Model
@@ -18,19 +20,21 @@ open LolHtml LolHtml.Model
 /-- the materialised attribute list of a start-tag token: (name bytes, value bytes, outline) -/
 abbrev AttrList := List (Bytes × Bytes × AttrOutline)
 
-/-- `Attribute::name_from_string` (attributes.rs:67): the checks made on a name given by the caller
-(the reject list is regenerated from the Rust: `Gen.Consts.attrNameReject`). -/
+/-- `Attribute::name_from_string` (attributes.rs:67): the checks made on a name that will be SERIALISED
+(`set_attribute` only; the reject list is regenerated from the Rust: `Gen.Consts.attrNameReject`). -/
 def nameFromString (name : Bytes) : Option Bytes :=
   if name.isEmpty then none
   else if name.any (fun ch => Gen.Consts.attrNameReject.contains ch) then none
   else some name
 
-/-- `Attributes::map_attribute` (attributes.rs:197): the QUERY is lower-cased and validated with the
-setter's `name_from_string`; then the first attribute whose lower-cased name equals it. -/
+/-- `Attribute::lookup_name` (attributes.rs:91): a name for a lookup is lower-cased and encoded, NOT
+validated — every name the parser can produce (`=b` in `<a =b>`) can be looked up. -/
+def lookupName (name : Bytes) : Bytes := asciiLowerBytes name
+
+/-- `Attributes::map_attribute` (attributes.rs:199): the first attribute whose lower-cased name equals
+the lower-cased query. -/
 def mapAttribute (attrs : AttrList) (query : Bytes) : Option (Bytes × Bytes × AttrOutline) :=
-  match nameFromString (asciiLowerBytes query) with
-  | none => none
-  | some name => attrs.find? fun a => eqCaseInsensitive a.1 name
+  attrs.find? fun a => eqCaseInsensitive a.1 (lookupName query)
 
 /-- `get_attribute` (attributes.rs:217) -/
 def getAttribute (attrs : AttrList) (query : Bytes) : Option Bytes :=
@@ -102,20 +106,15 @@ def setAttribute (items : EAttrList) (name value : Bytes) : Except AttrNameError
     | some items' => .ok items'
     | none => .ok (items ++ [(lname, value, none)])
 
-/-- `Attributes::remove_attribute` (attributes.rs:254): every attribute whose name matches goes; an
-invalid name removes nothing. The flag is `len_before != items.len()`. -/
+/-- `Attributes::remove_attribute` (attributes.rs:258): every attribute whose name matches the
+`lookup_name` goes. The flag is `len_before != items.len()`. -/
 def removeAttribute (items : EAttrList) (name : Bytes) : EAttrList × Bool :=
-  match nameFromStringE (asciiLowerBytes name) with
-  | .error _ => (items, false)
-  | .ok lname =>
-    let items' := items.filter fun a => !eqCaseInsensitive a.1 lname
-    (items', items.length != items'.length)
+  let items' := items.filter fun a => !eqCaseInsensitive a.1 (lookupName name)
+  (items', items.length != items'.length)
 
 /-- `map_attribute` on the materialised list -/
 def mapAttributeE (items : EAttrList) (query : Bytes) : Option (Bytes × Bytes × Option AttrOutline) :=
-  match nameFromStringE (asciiLowerBytes query) with
-  | .error _ => none
-  | .ok name => items.find? fun a => eqCaseInsensitive a.1 name
+  items.find? fun a => eqCaseInsensitive a.1 (lookupName query)
 
 def getAttributeE (items : EAttrList) (query : Bytes) : Option Bytes := (mapAttributeE items query).map (·.2.1)
 def hasAttributeE (items : EAttrList) (query : Bytes) : Bool := ((mapAttributeE items query).map fun _ => true).getD false
